@@ -231,7 +231,8 @@ def createAt (fs : FS) (path : String) : Bool × List Access :=
   match walkToParent fs path false with
   | (.error _, log) => (false, log)
   | (.ok (parent, leaf), log) =>
-    (validName leaf && (fs.entry parent leaf).isNone, log ++ [{ handle := parent, name := leaf }])
+    -- (the kernel refuses the empty name with ENOENT)
+    (validName leaf && leaf != "" && (fs.entry parent leaf).isNone, log ++ [{ handle := parent, name := leaf }])
 
 /-- What `remove(path, file entry)` does when the cache and the entry describe
 the file on disk: the walk with leaf validation, `fstatat(parent, leaf,
